@@ -1,9 +1,12 @@
 ----------------------------- MODULE MC_Cluster -----------------------------
 (* Model-checking instances of Cluster.tla (C08).  The .cfg files choose the workload and the as-built flags:       *)
-(*   MC_Cluster_fixed.cfg    3 nodes, flags TRUE/TRUE: Durability, AckAfterDurable, SnapshotNeverKills must hold     *)
-(*   MC_Cluster_one.cfg      1 node (quorum of one: Entries and CommittedEntries of one index in one Ready)          *)
-(*   MC_Cluster_F1.cfg       as built, strings only: Durability fails (write, snapshot, all crash, all restart)      *)
-(*   MC_Cluster_F2.cfg       as built, a list key: SnapshotNeverKills fails                                          *)
+(* Flags TRUE/TRUE - Durability, AckAfterDurable, SnapshotNeverKills, StateMachineCorrect must hold:                 *)
+(*   MC_Cluster_one.cfg      1 node, 3 writes (quorum of one: Entries and CommittedEntries of one index in ONE Ready) *)
+(*   MC_Cluster_two.cfg      2 nodes, 3 writes, 3 crashes, all interleavings (modulo POR)                            *)
+(*   MC_Cluster_three.cfg    3 nodes, 2 writes, 3 crashes, cycles serialised (Serial); reaches snapshot installation *)
+(* As built - the counterexamples are the LEADS replayed on real clusters by checks/C08.py:                           *)
+(*   MC_Cluster_F1.cfg       strings only: Durability fails (write, snapshot, crash, restart)                        *)
+(*   MC_Cluster_F2.cfg       a list key: SnapshotNeverKills fails                                                    *)
 (*   MC_Cluster_F3.cfg       snapshots loaded but collections serialised as {}: Durability fails                     *)
 (*   MC_Cluster_scen.cfg     emits one CRASHPT record per Crash transition (crash-point classes for B1)              *)
 EXTENDS Cluster, Json
@@ -20,6 +23,7 @@ KeysCol3 == <<"a", "c", "c">>      KindsCol3 == <<"str", "coll", "coll">>
 KeysStr4 == <<"a", "b", "a", "b">> KindsStr4 == <<"str", "str", "str", "str">>
 KeysMix2 == <<"a", "l">>           KindsMix2 == <<"str", "list">>
 KeysStr2 == <<"a", "a">>           KindsStr2 == <<"str", "str">>
+KeysCol2 == <<"a", "c">>           KindsCol2 == <<"str", "coll">>
 Via12 == <<n1, n2>>
 Via11 == <<n1, n1>>
 Via111 == <<n1, n1, n1>>
